@@ -176,5 +176,6 @@ if __name__ == '__main__':
     except SystemExit:
         raise
     except BaseException as e:
-        log('exception %r' % (e,))
+        import traceback
+        log('exception %r\n%s' % (e, traceback.format_exc()))
         os._exit(5)
